@@ -130,7 +130,7 @@ func (e *c11Env) fundModule(module, denom string, amt int64) {
 // setMapping installs one collector lookup table + auction mapping and sets the net fees so that the real
 // activator starts an auction of the wanted kind in the next block (and `rounds` more after each close).
 func (e *c11Env) setMapping(m c11Mapping, rounds int64) {
-	surplusThr, debtThr := int64(1000000), int64(500000000)
+	surplusThr, debtThr := int64(1000000), int64(1000000000000)
 	c11Must(e.t, e.app.CollectorKeeper.WasmSetCollectorLookupTable(e.ctx, &bindings.MsgSetCollectorLookupTable{
 		AppID: 1, CollectorAssetID: m.asset, SecondaryAssetID: m.secondary,
 		SurplusThreshold: sdk.NewInt(surplusThr), DebtThreshold: sdk.NewInt(debtThr),
@@ -204,15 +204,15 @@ func (e *c11Env) who(addr string) int {
 }
 
 type c11Auc struct {
-	app, mapping, id       uint64
-	kind                   int // 0 surplusV1 1 debtV1 2 surplusV2 3 debtV2
-	payDenom, lotDenom     int
-	pay, lot, lot0         sdk.Int
-	bidder                 int
-	nbids                  int
-	factor                 sdk.Dec
-	endT, bidEndT          int64
-	payDenomS, lotDenomS   string
+	app, mapping, id     uint64
+	kind                 int // 0 surplusV1 1 debtV1 2 surplusV2 3 debtV2
+	payDenom, lotDenom   int
+	pay, lot, lot0       sdk.Int
+	bidder               int
+	nbids                int
+	factor               sdk.Dec
+	endT, bidEndT        int64
+	payDenomS, lotDenomS string
 }
 
 func (e *c11Env) auctions() []c11Auc {
@@ -294,7 +294,9 @@ func (e *c11Env) state() string {
 		}
 		var ds []dep
 		pairs := append([][2]uint64{}, e.pairs...)
-		sort.Slice(pairs, func(i, j int) bool { return pairs[i][0] < pairs[j][0] || pairs[i][0] == pairs[j][0] && pairs[i][1] < pairs[j][1] })
+		sort.Slice(pairs, func(i, j int) bool {
+			return pairs[i][0] < pairs[j][0] || pairs[i][0] == pairs[j][0] && pairs[i][1] < pairs[j][1]
+		})
 		for _, p := range pairs {
 			for _, pr := range e.premiums {
 				recs, _ := e.app.NewaucKeeper.GetUserLimitBidDataByPremium(e.ctx, p[0], p[1], sdk.NewInt(pr))
@@ -373,7 +375,9 @@ func (e *c11Env) block(dt int64) {
 	e.tr.Line("eng.tick", i64(e.now), outcome, e.state())
 }
 
-func c11Coin(denomIdx int, amt sdk.Int) sdk.Coin { return sdk.Coin{Denom: c11Denoms[denomIdx], Amount: amt} }
+func c11Coin(denomIdx int, amt sdk.Int) sdk.Coin {
+	return sdk.Coin{Denom: c11Denoms[denomIdx], Amount: amt}
+}
 
 func (e *c11Env) bid(who int, a c11Auc, denom int, amt sdk.Int, expDenom int, expAmt sdk.Int, mapping uint64) {
 	addr := e.accts[who].String()
@@ -527,80 +531,120 @@ func (e *c11Env) corpus(base sdk.Context) {
 
 func (e *c11Env) pickAmount(cands []sdk.Int) sdk.Int { return cands[e.rng.Intn(len(cands))] }
 
-func (e *c11Env) genBid() {
+// threshold of the next acceptable bid on the real record: smallest accepted amount for increasing bids,
+// largest accepted amount for decreasing ones — computed with the library exactly as the handler does
+func c11Threshold(a c11Auc) sdk.Int {
+	if a.kind == 0 || a.kind == 2 {
+		if a.bidder != -1 {
+			return a.pay.Add(c11Change(a.factor, a.pay))
+		}
+		if a.kind == 0 {
+			return a.pay.AddRaw(1)
+		}
+		if a.pay.IsZero() {
+			return sdk.OneInt()
+		}
+		return a.pay
+	}
+	if a.bidder != -1 {
+		return a.lot.Sub(c11Change(a.factor, a.lot))
+	}
+	if a.kind == 3 {
+		return a.lot
+	}
+	return a.lot0
+}
+
+func (e *c11Env) genBid(valid bool) {
 	as := e.auctions()
 	if len(as) == 0 {
 		e.tr.Count("bid:no-live-auction")
 		return
 	}
 	a := as[e.rng.Intn(len(as))]
-	who := 2 + e.rng.Intn(e.nUsers)
 	increasing := a.kind == 0 || a.kind == 2
+	thr := c11Threshold(a)
 	mapping := a.mapping
-	if e.rng.Chance(4) {
-		mapping = 3 - mapping // wrong mapping id (x/auction) — the lookup must fail
-		e.tr.Count("bid:wrong-mapping")
-	}
-	if e.rng.Chance(3) {
-		a.id += 17 // unknown auction
-		e.tr.Count("bid:unknown-auction")
-	}
-	bal := e.app.BankKeeper.GetBalance(e.ctx, e.accts[who], a.payDenomS).Amount
-	var amt sdk.Int
-	if increasing {
-		var thr sdk.Int // smallest accepted amount
-		if a.bidder != -1 {
-			thr = a.pay.Add(c11Change(a.factor, a.pay))
-		} else if a.kind == 0 {
-			thr = a.pay.AddRaw(1)
-		} else {
-			thr = a.pay
-			if thr.IsZero() {
-				thr = sdk.OneInt()
-			}
-		}
-		cands := []sdk.Int{thr, thr, thr, thr.SubRaw(1), thr.AddRaw(1), thr.AddRaw(int64(e.rng.Intn(1000))), thr.MulRaw(2).AddRaw(3), a.pay, a.pay.AddRaw(1),
-			sdk.ZeroInt(), sdk.OneInt(), bal, bal.AddRaw(1), sdk.NewInt(int64(e.rng.Intn(100000)))}
-		amt = e.pickAmount(cands)
-		e.tr.Count("bid:amount-vs-threshold:" + c11Cmp(amt, thr))
-	} else {
-		var thr sdk.Int // largest accepted amount
-		if a.bidder != -1 {
-			thr = a.lot.Sub(c11Change(a.factor, a.lot))
-		} else {
-			thr = a.lot0
-			if a.kind == 3 {
-				thr = a.lot
-			}
-		}
-		cands := []sdk.Int{thr, thr, thr, thr.AddRaw(1), thr.SubRaw(1), thr.SubRaw(int64(e.rng.Intn(1000))), thr.QuoRaw(2), a.lot, a.lot.SubRaw(1),
-			sdk.ZeroInt(), sdk.OneInt(), sdk.NewInt(-1), sdk.NewInt(int64(e.rng.Intn(100000)))}
-		amt = e.pickAmount(cands)
-		e.tr.Count("bid:amount-vs-threshold:" + c11Cmp(amt, thr))
-	}
 	denom := a.payDenom
 	if !increasing {
 		denom = a.lotDenom
 	}
-	if e.rng.Chance(12) {
-		denom = e.rng.Intn(len(c11Denoms))
-		e.tr.Count("bid:random-denom")
-	}
 	expDenom, expAmt := a.payDenom, a.pay
-	if a.kind == 1 && e.rng.Chance(12) {
-		switch e.rng.Intn(3) {
-		case 0:
-			expAmt = expAmt.SubRaw(1)
-		case 1:
-			expAmt = expAmt.AddRaw(1)
-		default:
-			expDenom = e.rng.Intn(len(c11Denoms))
+	who := 2 + e.rng.Intn(e.nUsers)
+	var amt sdk.Int
+	if valid {
+		// a bidder that can afford it, if there is one
+		need := a.pay
+		if increasing {
+			need = thr
 		}
-		e.tr.Count("bid:wrong-expected-user-token")
+		for try := 0; try < 6; try++ {
+			if e.app.BankKeeper.GetBalance(e.ctx, e.accts[who], a.payDenomS).Amount.GTE(need) {
+				break
+			}
+			who = 2 + e.rng.Intn(e.nUsers)
+		}
+		bal := e.app.BankKeeper.GetBalance(e.ctx, e.accts[who], a.payDenomS).Amount
+		if increasing {
+			amt = e.pickAmount([]sdk.Int{thr, thr, thr.AddRaw(1), thr.AddRaw(int64(e.rng.Intn(50))), thr.AddRaw(int64(e.rng.Intn(5000))), thr.MulRaw(3).QuoRaw(2).AddRaw(1)})
+			if e.rng.Chance(4) && bal.GT(thr) {
+				amt = bal
+			}
+		} else {
+			amt = e.pickAmount([]sdk.Int{thr, thr, thr.SubRaw(1), thr.SubRaw(int64(e.rng.Intn(50))), thr.MulRaw(9).QuoRaw(10), thr.QuoRaw(2)})
+			if amt.IsNegative() || (a.kind == 3 && !amt.IsPositive()) {
+				amt = thr
+			}
+		}
+		e.tr.Count("bid:valid-stream")
+	} else {
+		e.tr.Count("bid:malformed-stream")
+		bal := e.app.BankKeeper.GetBalance(e.ctx, e.accts[who], a.payDenomS).Amount
+		switch e.rng.Intn(9) {
+		case 0:
+			mapping = 3 - mapping // wrong mapping id (x/auction) — the lookup must fail
+			amt = thr
+			e.tr.Count("bid:wrong-mapping")
+		case 1:
+			a.id += 17 // unknown auction
+			amt = thr
+			e.tr.Count("bid:unknown-auction")
+		case 2:
+			denom = e.rng.Intn(len(c11Denoms))
+			amt = thr
+			e.tr.Count("bid:random-denom")
+		case 3:
+			amt = thr
+			if a.kind == 1 {
+				switch e.rng.Intn(3) {
+				case 0:
+					expAmt = expAmt.SubRaw(1)
+				case 1:
+					expAmt = expAmt.AddRaw(1)
+				default:
+					expDenom = e.rng.Intn(len(c11Denoms))
+				}
+				e.tr.Count("bid:wrong-expected-user-token")
+			} else {
+				amt = bal.AddRaw(1) // more than the bidder owns
+				e.tr.Count("bid:above-balance")
+			}
+		default:
+			if increasing {
+				amt = e.pickAmount([]sdk.Int{thr.SubRaw(1), thr.SubRaw(1), a.pay, a.pay.AddRaw(1), a.pay.SubRaw(1), sdk.ZeroInt(), sdk.OneInt(), bal.AddRaw(1), thr.SubRaw(int64(1 + e.rng.Intn(100)))})
+			} else {
+				amt = e.pickAmount([]sdk.Int{thr.AddRaw(1), thr.AddRaw(1), a.lot, a.lot.AddRaw(1), sdk.ZeroInt(), sdk.NewInt(-1), thr.AddRaw(int64(1 + e.rng.Intn(100)))})
+			}
+		}
 	}
-	if denom >= len(c11Denoms) || expDenom >= len(c11Denoms) {
-		return
+	if a.bidder == -1 {
+		e.tr.Count("bid:on-fresh-auction")
+	} else if a.bidder == who {
+		e.tr.Count("bid:against-own-standing-bid")
+	} else {
+		e.tr.Count("bid:against-other-bidder")
 	}
+	e.tr.Count("bid:amount-vs-threshold:" + c11Cmp(amt, thr))
 	e.bid(who, a, denom, amt, expDenom, expAmt, mapping)
 }
 
@@ -625,16 +669,97 @@ func (e *c11Env) ownDeposit(who int, coll, debt uint64, prem int64) (sdk.Int, bo
 	return r.DebtToken.Amount, true
 }
 
-func (e *c11Env) genLimit() {
+type c11Rec struct {
+	who        int
+	debt, coll uint64
+	prem       int64
+	amt        sdk.Int
+}
+
+func (e *c11Env) records() []c11Rec {
+	var out []c11Rec
+	for w := 2; w < 2+e.nUsers; w++ {
+		for _, p := range e.pairs {
+			for _, pr := range e.premiums {
+				if amt, ok := e.ownDeposit(w, p[1], p[0], pr); ok {
+					out = append(out, c11Rec{w, p[0], p[1], pr, amt})
+				}
+			}
+		}
+	}
+	return out
+}
+
+func (e *c11Env) genLimit(valid bool) {
+	recs := e.records()
+	if valid {
+		e.tr.Count("limit:valid-stream")
+		r := e.rng.Intn(100)
+		switch {
+		case r < 40 || len(recs) == 0:
+			p := e.pairs[e.rng.Intn(len(e.pairs))]
+			prem := e.premiums[e.rng.Intn(len(e.premiums))]
+			denom := int(p[0] - 1)
+			who := 2 + e.rng.Intn(e.nUsers)
+			for try := 0; try < 6; try++ {
+				if e.app.BankKeeper.GetBalance(e.ctx, e.accts[who], c11Denoms[denom]).Amount.GTE(sdk.NewInt(1000)) {
+					break
+				}
+				who = 2 + e.rng.Intn(e.nUsers)
+			}
+			bal := e.app.BankKeeper.GetBalance(e.ctx, e.accts[who], c11Denoms[denom]).Amount
+			amt := e.pickAmount([]sdk.Int{sdk.NewInt(100), sdk.NewInt(900), sdk.NewInt(int64(1 + e.rng.Intn(100000))), sdk.NewInt(int64(1 + e.rng.Intn(1000))), sdk.NewInt(3), sdk.NewInt(1)})
+			if amt.GT(bal) && bal.IsPositive() {
+				amt = bal
+			}
+			if _, has := e.ownDeposit(who, p[1], p[0], prem); has {
+				e.tr.Count("dep:top-up")
+			} else {
+				e.tr.Count("dep:new-record")
+			}
+			e.deposit(who, p[1], p[0], prem, denom, amt)
+		case r < 70:
+			c := recs[e.rng.Intn(len(recs))]
+			amt := c.amt.QuoRaw(int64(2 + e.rng.Intn(3)))
+			if e.rng.Chance(25) {
+				amt = c.amt.SubRaw(1)
+			}
+			if !amt.IsPositive() {
+				amt = c.amt
+			}
+			if amt.Equal(c.amt) {
+				e.tr.Count("wd:full")
+			} else {
+				e.tr.Count("wd:partial")
+			}
+			e.withdraw(c.who, c.coll, c.debt, c.prem, int(c.debt-1), amt)
+		case r < 82:
+			c := recs[e.rng.Intn(len(recs))]
+			e.tr.Count("wd:full")
+			e.withdraw(c.who, c.coll, c.debt, c.prem, int(c.debt-1), c.amt)
+		default:
+			c := recs[e.rng.Intn(len(recs))]
+			e.cancel(c.who, c.coll, c.debt, c.prem)
+		}
+		return
+	}
+	e.tr.Count("limit:malformed-stream")
 	who := 2 + e.rng.Intn(e.nUsers)
 	p := e.pairs[e.rng.Intn(len(e.pairs))]
 	debt, coll := p[0], p[1]
 	prem := e.premiums[e.rng.Intn(len(e.premiums))]
-	if e.rng.Chance(3) {
+	if len(recs) > 0 && e.rng.Chance(70) {
+		c := recs[e.rng.Intn(len(recs))]
+		debt, coll, prem = c.debt, c.coll, c.prem
+		if e.rng.Chance(60) {
+			who = c.who
+		}
+	}
+	if e.rng.Chance(8) {
 		prem = []int64{31, -1, 30}[e.rng.Intn(3)]
 		e.tr.Count("limit:odd-premium")
 	}
-	if e.rng.Chance(3) {
+	if e.rng.Chance(6) {
 		debt = 9
 		e.tr.Count("limit:unknown-asset")
 	}
@@ -644,18 +769,18 @@ func (e *c11Env) genLimit() {
 	}
 	own, has := e.ownDeposit(who, coll, debt, prem)
 	switch r := e.rng.Intn(100); {
-	case r < 40 || !has && r < 70:
+	case r < 25:
 		denom := rightDenom
-		if e.rng.Chance(10) {
+		if e.rng.Chance(50) {
 			denom = e.rng.Intn(len(c11Denoms))
 			e.tr.Count("dep:random-denom")
 		}
 		bal := e.app.BankKeeper.GetBalance(e.ctx, e.accts[who], c11Denoms[denom]).Amount
-		amt := e.pickAmount([]sdk.Int{sdk.NewInt(1), sdk.NewInt(100), sdk.NewInt(900), sdk.NewInt(int64(1 + e.rng.Intn(100000))), sdk.NewInt(int64(1 + e.rng.Intn(1000))), bal, bal.AddRaw(1), sdk.ZeroInt(), sdk.NewInt(3)})
+		amt := e.pickAmount([]sdk.Int{bal.AddRaw(1), sdk.ZeroInt(), sdk.NewInt(-5), sdk.NewInt(7), bal})
 		e.deposit(who, coll, debt, prem, denom, amt)
-	case r < 80:
+	case r < 85:
 		denom := rightDenom
-		if e.rng.Chance(25) {
+		if e.rng.Chance(40) {
 			denom = e.rng.Intn(len(c11Denoms))
 			e.tr.Count("wd:random-denom")
 		}
@@ -664,7 +789,7 @@ func (e *c11Env) genLimit() {
 			bv = pd.BidValue
 		}
 		cust := e.app.BankKeeper.GetBalance(e.ctx, e.accts[0], c11Denoms[denom]).Amount
-		amt := e.pickAmount([]sdk.Int{own, own.SubRaw(1), own.AddRaw(1), own.QuoRaw(2), sdk.OneInt(), bv, bv.AddRaw(1), cust, own.MulRaw(2), sdk.NewInt(int64(1 + e.rng.Intn(1000))), sdk.ZeroInt()})
+		amt := e.pickAmount([]sdk.Int{own.AddRaw(1), own.AddRaw(1), own.MulRaw(2), bv, bv.AddRaw(1), cust, cust.AddRaw(1), sdk.OneInt(), sdk.NewInt(int64(1 + e.rng.Intn(1000))), sdk.ZeroInt(), own})
 		if has {
 			e.tr.Count("wd:amount-vs-own:" + c11Cmp(amt, own))
 		} else {
@@ -672,6 +797,11 @@ func (e *c11Env) genLimit() {
 		}
 		e.withdraw(who, coll, debt, prem, denom, amt)
 	default:
+		if has {
+			e.tr.Count("cancel:own-record")
+		} else {
+			e.tr.Count("cancel:no-record")
+		}
 		e.cancel(who, coll, debt, prem)
 	}
 }
@@ -680,17 +810,17 @@ func (e *c11Env) genSequence(base sdk.Context, s int) {
 	e.newBranch(base)
 	ver := 1 + e.rng.Intn(2)
 	e.nUsers = e.rng.Range(2, 5)
-	e.dur = []int64{10, 300, 300}[e.rng.Intn(3)]
-	e.bidDur = []int64{5, 300, 1000}[e.rng.Intn(3)]
+	e.dur = []int64{10, 60, 300}[e.rng.Intn(3)]
+	e.bidDur = []int64{5, 30, 1000}[e.rng.Intn(3)]
 	funds := make([][]int64, e.nUsers)
 	for i := range funds {
 		funds[i] = make([]int64, 4)
 		for d := range funds[i] {
-			funds[i][d] = []int64{0, 500, 1000000, 1000000000000, 1000000000000}[e.rng.Intn(5)]
+			funds[i][d] = []int64{0, 500, 1000000, 1000000000000, 1000000000000, 1000000000000}[e.rng.Intn(6)]
 		}
 	}
 	dec := func(xs []string) sdk.Dec { return sdk.MustNewDecFromStr(xs[e.rng.Intn(len(xs))]) }
-	// 1..3 mappings; collector assets are distinct; the secondary asset differs from the collector asset
+	// 0..3 mappings; collector assets are distinct; the secondary asset differs from the collector asset
 	cands := []c11Mapping{{asset: 2, secondary: 3}, {asset: 1, secondary: 3}, {asset: 4, secondary: 2}}
 	nm := e.rng.Range(1, 3)
 	if ver == 2 && e.rng.Chance(20) {
@@ -711,8 +841,11 @@ func (e *c11Env) genSequence(base sdk.Context, s int) {
 		cf, wf, v2f = dec(c11Fees), dec(c11Fees), dec(c11Factors)
 		e.pairs = [][2]uint64{{3, 2}, {2, 1}, {3, 1}}
 		e.premiums = []int64{0, 5, 30}
+		if !cf.IsZero() || !wf.IsZero() {
+			e.tr.Count("fees:nonzero")
+		}
 	}
-	e.setup(ver, maps, 2, cf, wf, v2f, funds)
+	e.setup(ver, maps, 3, cf, wf, v2f, funds)
 	e.begin(cf, wf)
 	e.block(1)
 	nops := e.rng.Range(10, scale(40, 120))
@@ -725,22 +858,37 @@ func (e *c11Env) genSequence(base sdk.Context, s int) {
 	}
 	for o := 0; o < nops; o++ {
 		r := e.rng.Intn(100)
+		valid := e.rng.Chance(78)
 		switch {
 		case r < 18:
-			dts := []int64{1, 1, 3, e.bidDur - 1, e.bidDur, e.bidDur + 1, e.dur - 1, e.dur, e.dur + 1, e.dur / 2}
-			dt := dts[e.rng.Intn(len(dts))]
+			dts := []int64{e.bidDur - 1, e.bidDur, e.bidDur + 1, e.dur - 1, e.dur, e.dur + 1, e.dur / 2, 3}
+			dt := int64(1 + e.rng.Intn(2))
+			if e.rng.Chance(40) {
+				dt = dts[e.rng.Intn(len(dts))]
+			}
 			if dt < 1 {
 				dt = 1
 			}
-			before := len(e.auctions())
+			before := e.auctions()
 			e.block(dt)
-			if len(e.auctions()) < before {
-				e.tr.Count("tick:closed-some")
+			after := map[uint64]c11Auc{}
+			for _, a := range e.auctions() {
+				after[a.id] = a
+			}
+			for _, a := range before {
+				if b, ok := after[a.id]; !ok {
+					e.tr.Count("tick:closed-an-auction")
+				} else if b.endT != a.endT {
+					e.tr.Count("tick:restarted-an-auction")
+				}
+			}
+			if len(after) > 1 {
+				e.tr.Count("tick:several-live-auctions")
 			}
 		case e.rng.Intn(100) < limitPct:
-			e.genLimit()
+			e.genLimit(valid)
 		default:
-			e.genBid()
+			e.genBid(valid)
 		}
 	}
 	// let everything end: two long blocks close (or restart) whatever is open
